@@ -29,17 +29,19 @@ Theorem C12_worker_exits : forall t ls s,
 Proof. exact c12_worker_exited. Qed.
 Print Assumptions C12_worker_exits.
 
-(* Bound: once the closing flag is set and the handle closed, the worker begins at most ONE
-   more select (one more loop iteration) ... *)
+(* Bound (TLS and Unix sockets; for SSH see C12_ssh_bound_partial below): once the closing flag
+   is set and the handle closed, the worker begins at most ONE more select (one more loop
+   iteration) ... *)
 Theorem C12_worker_exits_one_iteration : forall t ls s,
-  run_of t ls s -> (sel_after_close s <= 1)%N.
+  run_of t ls s -> is_ssh t = false -> (sel_after_close s <= 1)%N.
 Proof. exact c12_worker_one_iteration. Qed.
 Print Assumptions C12_worker_exits_one_iteration.
 
 (* ... and in any continuation it performs at most wfuel (<= 17 outside a nested close(), <= 23
    always) steps plus 9 per message that had already been read and is still dispatched ... *)
 Theorem C12_worker_exits_bound : forall t ls0 s ls s',
-  run_of t ls0 s -> closing s = true -> socket_open s = false -> worker s <> WNotStarted ->
+  run_of t ls0 s -> is_ssh t = false ->
+  closing s = true -> socket_open s = false -> worker s <> WNotStarted ->
   accepts s ls = Some s' ->
   (count is_plain_worker_label ls <= wfuel (worker s) + 9 * count is_dispatch_label ls)%nat.
 Proof. exact c12_worker_exits_bound. Qed.
@@ -87,6 +89,26 @@ Theorem C12_close_session : forall t ls s,
   released s /\ peer_saw_eof s = true /\ callbacks_after_close s = 0%N.
 Proof. exact c12_close_session. Qed.
 Print Assumptions C12_close_session.
+
+(* PARTIAL for SSH: paramiko's channel still returns the data it had buffered when the transport
+   was closed (observed, tools/props/c12.py path race_read), so hypothesis O1 is not assumed for
+   SSH and no iteration bound is proved there: the worker drains that finite buffer (one recv of at
+   most 4096 octets per iteration) and then ends.  Missing lemma: a model of the channel buffer
+   (chunks received before the close) and the bound "1 + chunks buffered at close".
+   What IS proved for SSH as for the others: when close() has returned the worker has ended
+   (C12_worker_exits, by the join) and never runs again (C12_no_late_callback).
+   Witness that the one-iteration bound is false without O1: *)
+Definition ex_ssh_buffered : list label :=
+  [OpenHandle; SetConn; Start; SelectBegin; Select true; ReadBegin; Read (RData 1); Dispatch None; HelloOk;
+   CloseCall; CStep Client SetClosing true; CStep Client ClearConn true; CStep Client CloseHandle true;
+   SelectBegin; Select true; ReadBegin; Read (RData 1); Dispatch None;
+   SelectBegin; Select true; ReadBegin; Read (RData 1); Dispatch None].
+Example C12_ssh_bound_partial :
+  exists s, run_of Ssh ex_ssh_buffered s /\ sel_after_close s = 2%N /\ accepts (init Tls) ex_ssh_buffered = None.
+Proof.
+  exists (match accepts (init Ssh) ex_ssh_buffered with Some s => s | None => init Ssh end).
+  repeat match goal with |- _ /\ _ => split end; vm_compute; reflexivity.
+Qed.
 
 (* ---------------- non-vacuity ---------------- *)
 Definition st_of (t : transport) (ls : list label) : state :=
